@@ -274,6 +274,43 @@ pub fn c13(input: &str, ctx: &mut Ctx) {
     }
 }
 
+/// Both identifier-scanning routines (scalar and AVX2, via the hook) must agree with R's identifier
+/// run from every char boundary of x.
+pub fn c13_ident_routines(x: &str, ctx: &mut Ctx) {
+    fn ref_end(x: &str, mut i: usize) -> usize {
+        for ch in x[i..].chars() {
+            let ident = ch.is_ascii_alphanumeric() || ch == '_' || (ch >= '\u{80}' && ch != '\u{3000}');
+            if !ident {
+                break;
+            }
+            i += ch.len_utf8();
+        }
+        i
+    }
+    for i in 0..=x.len() {
+        if !x.is_char_boundary(i) {
+            continue;
+        }
+        let expect = ref_end(x, i);
+        let g = pasfmt_core::verif::lexer::ident_end_generic(x, i);
+        let d = pasfmt_core::verif::lexer::ident_end_dispatch(x, i);
+        let a = pasfmt_core::verif::lexer::ident_end_avx2(x, i);
+        for (name, got) in [("generic", Some(g)), ("dispatch", Some(d)), ("avx2", a)] {
+            if let Some(got) = got {
+                if got != expect {
+                    ctx.fail(
+                        "C13",
+                        &format!("identifier-end:{name}"),
+                        format!("identifier run from byte {i}: {name} routine says {got}, reference {expect}"),
+                        json!({"oracle": "c13words", "input": x}),
+                    );
+                    return;
+                }
+            }
+        }
+    }
+}
+
 // ---------------------------------------------------------------------------------------------
 // C01 — every non-blank character preserved, in order
 
